@@ -476,6 +476,16 @@ def run_xy(ctx, lines, expect):
            ((2 ** 63 + 1, np.uint64), (2.0 ** 63, np.float64)), ((2 ** 64 - 1, np.uint64), (-1, np.int64)), ((2 ** 63, np.uint64), (-2 ** 63, np.int64)),
            ((2 ** 62 + 1, np.uint64), (2 ** 62 + 1, np.int64)), ((-(2 ** 53) - 1, np.int64), (-(2.0 ** 53), np.float64)),
            ((0.1, np.float32), (0.1, np.float64)), ((16777217, np.int64), (16777216.0, np.float32)), ((3, np.int8), (3.0, np.float64))]
+    # every integer dtype's limits against the floats at and next to them (the first float beyond an integer range is where a cast wraps),
+    # infinities and NaN against integers, and integers against the value a wrapping cast of the float would give
+    for it in (np.int8, np.uint8, np.int16, np.uint16, np.int32, np.uint32, np.int64, np.uint64):
+        info = np.iinfo(it)
+        for ft in (np.float32, np.float64):
+            for fv in (float(info.max) , float(info.max) + 1.0, float(2 ** info.bits), float(2 ** (info.bits - 1)), float(info.min), float(info.min) - 1.0, -float(2 ** info.bits),
+                       float("inf"), float("-inf"), float("nan"), -0.0, 0.5):
+                fv = float(ft(fv))
+                for iv in (info.min, info.max, 0, -1 if info.min < 0 else 1, info.max - 1):
+                    big.append(((iv, it), (fv, ft)))
     for (va, ta), (vb, tb) in big:
         for axis in ("x", "y"):
             for swap in (False, True):
